@@ -14,6 +14,7 @@
 #include <thread>
 
 #include "common/canon.h"
+#include "draco/compression/point_cloud/algorithms/float_points_tree_encoder.h"
 #include "common/codec.h"
 #include "common/geo.h"
 #include "common/runner.h"
@@ -259,6 +260,24 @@ int main(int argc, char **argv) {
       }
       if (!ok) { rep.violation("encode-status-differs/after-speed-history/" + cfg, desc + " history speed " + std::to_string(hist.enc_speed) + "/" + std::to_string(hist.dec_speed), arts); return; }
       if (differs(std::string("after-speed-history/") + (c.o.expert ? "expert" : "basic"), got)) return;
+    }
+    // (3c) the low-level float point-cloud encoder (FloatPointsTreeEncoder) is reusable as well: after a cloud of
+    // larger or smaller extent on the same object, a cloud encodes to the bytes a fresh object produces.
+    if (r.below(8) == 0) {
+      const int level = static_cast<int>(r.below(7));
+      const uint32_t qb = 4 + static_cast<uint32_t>(r.below(16));
+      auto cloud = [&](size_t n, float extent) { std::vector<Point3f> v; for (size_t i = 0; i < n; ++i) v.push_back(Point3f(static_cast<float>(r.uniform(-1, 1)) * extent, static_cast<float>(r.uniform(-1, 1)) * extent, static_cast<float>(r.uniform(-1, 1)) * extent)); return v; };
+      const std::vector<Point3f> target = cloud(1 + r.below(200), 1.f);
+      const std::vector<Point3f> before = cloud(1 + r.below(200), r.below(2) ? 1000.f : 0.001f);
+      FloatPointsTreeEncoder fresh(KDTREE, qb, level), used(KDTREE, qb, level);
+      const bool ok_fresh = fresh.EncodePointCloud(target.begin(), target.end());
+      used.EncodePointCloud(before.begin(), before.end());
+      const bool ok_used = used.EncodePointCloud(target.begin(), target.end());
+      if (ok_fresh != ok_used || (ok_fresh && (fresh.buffer()->size() != used.buffer()->size() || memcmp(fresh.buffer()->data(), used.buffer()->data(), fresh.buffer()->size()) != 0))) {
+        rep.violation("encode-differs/float-points-tree-encoder-reused", desc + " level=" + std::to_string(level) + " qbits=" + std::to_string(qb) + " sizes=" + std::to_string(fresh.buffer()->size()) + "/" + std::to_string(used.buffer()->size()), arts);
+        return;
+      }
+      rep.count("encode_equal/float-points-tree-encoder-reused");
     }
     // (4) another process, ASLR on and off
     if (k % 16 == 0) {
